@@ -24,6 +24,7 @@ pub fn members(names: &[&str], args: &Args, ev: &mut Ev) -> Vec<wgen::Member> {
             "leb" => fam::leb_family(args.tier.g()),
             "idshift" => fam::idshift_family(),
             "minimal" => fam::minimal_family(),
+            "reach+customs" => fam::reach_customs_family(),
             "ctrl" => fam::ctrl_family(args.tier.g()),
             other => {
                 ev.note(format!("unknown family {}", other));
